@@ -16,11 +16,11 @@ def DirectUnk (pes : PEntities) : Prop :=
     (∀ a r, lookupKV d.tags a ≠ some (.residual r))
 
 theorem evalIn_noRes (u1 : EntityUID) (anc : Option (List EntityUID)) (v2 : Value) (r : Expr) : evalIn u1 anc v2 ≠ .res r := by
-  unfold evalIn
-  split
-  · simp
-  · split <;> simp
-  · simp
+  cases v2 with
+  | prim p => cases p <;> simp [evalIn]
+  | set vs => simp only [evalIn]; cases asEntityList vs <;> simp
+  | record kvs => simp [evalIn]
+  | ext x => simp [evalIn]
 
 theorem papplyBinary_noRes {pes : PEntities} (hD : DirectUnk pes) (op : BinaryOp) (v1 v2 : Value) (r : Expr) :
     papplyBinary pes op v1 v2 ≠ .res r := by
